@@ -229,6 +229,35 @@ pub fn undeclared_calls(oracle: Oracle) -> Box<dyn Space> {
     space("G-PROG/undeclared-calls/prelude", NAMES.len() as u64 * 3, 4, desc, Box::new(gen), oracle)
 }
 
+/// A program that already has a diagnostic, followed by an assignment to a const (which must
+/// add its own diagnostic without touching the earlier ones).
+pub fn const_assign_after_diagnostic(oracle: Oracle) -> Box<dyn Space> {
+    let desc = json!({"space": "G-PROG const assignment after a diagnostic", "earlier": ["undeclared initializer", "redeclaration", "type error"], "values": ["int literal", "variable", "float literal"], "prelude": true});
+    let gen = move |i: u64| -> Option<ProgCase> {
+        let earlier = match i / 3 {
+            0 => Stmt::Decl { konst: false, ty: Ty::plain("int"), name: "y9".into(), init: Some(id("zz9")) },
+            1 => Stmt::Decl { konst: false, ty: Ty::w("float", 64), name: "a".into(), init: None },
+            _ => Stmt::Decl { konst: false, ty: Ty::plain("bool"), name: "y8".into(), init: Some(flt_e("1.5")) },
+        };
+        let value = match i % 3 {
+            0 => int(2),
+            1 => id("b"),
+            _ => flt_e("2.5"),
+        };
+        let mut stmts = prelude();
+        stmts.push(Stmt::Decl { konst: true, ty: Ty::plain("int"), name: "kk9".into(), init: Some(int(1)) });
+        stmts.push(earlier);
+        stmts.push(Stmt::Assign { target: crate::model::prog::Operand::Id("kk9".into()), op: None, value });
+        stmts.push(Stmt::Reset(crate::model::prog::Operand::Id("r".into())));
+        Some(ProgCase { stmts, tag: format!("const-assign-after-diagnostic[{}][{}]", i / 3, i % 3) })
+    };
+    space("G-PROG/const-assign-after-diagnostic/prelude", 9, 3, desc, Box::new(gen), oracle)
+}
+
+fn flt_e(t: &str) -> Expr {
+    Expr::Float(t.to_string())
+}
+
 fn rename_decl(st: &mut Stmt, pos: usize) {
     let sfx = format!("_{}", pos);
     match st {
